@@ -21,8 +21,16 @@ EXPLANATION = (
     "notify) and no global callback, observer, tombstone or user-data cleanup is reachable on that path (predicate abstraction with the "
     "atom op≠null); R4 the engines' connect() reach no callback invocation and no socket call — they only enqueue; R5 success is returned "
     "only on op->done before any engine close; after the timeout-path close no ok result is reachable, the close runs with syncMutex "
-    "released and the lock is re-acquired before the ParkGuard dies; R7 the I/O-thread identity guard precedes the first lock; R8 the "
+    "released and the lock is re-acquired before the ParkGuard dies; R5b the value of every return after that close is built by Result::err, "
+    "traced through locals and helper functions; R7 the I/O-thread identity guard precedes the first lock; R8 the "
     "cancellable wrapper tests the token before every connectSync and bounds each sub-wait by min(remaining, interval).")
+# exempt from the function-inventory guard (report.py): these rules look into functions they have never seen
+FOLLOWS_HELPERS = {"C04-R3": "the pending-connect branch is judged in whichever transport function holds the lookup (the callback lambda or the helper it calls, hit/miss through the "
+                             "helper's bool result); global effects are collected through helper calls; a completion step moved deeper is a refusal, not a finding",
+                   "C04-R4": "call-graph closure from the engines' connect(): a new helper on that path is part of the closure",
+                   "C04-R5b": "the value of every return after the timeout close is classified by what builds it, through locals and the bodies of the functions it comes from; "
+                              "an untraceable value is a refusal",
+                   "C04-R4b": "close(sid) must queue on every path; a same-class helper that always queues counts as the queueing step"}
 NOT_DECIDED = ["'no later than timeout plus bounded slack' (timing)", "that a handshake completed (OpenSSL)", "peers that black-hole (run time)",
                "C04-R6 (every id gets a terminal event) is decided as C02-R3"]
 
@@ -81,6 +89,264 @@ def r11(ctx, r):
 
 
 
+# ---------------------------------------------------------------------------------------------------------------------------
+# Looking through helper functions and local names.  A behaviour-preserving refactoring may move any of the constructs the rules
+# below look at into a member function of the transport (helper extraction) and may rename every local.  The rules therefore
+# (a) resolve direct calls to functions defined in the transport's own header and judge the callee's body where the construct
+# now lives, (b) identify "the waiter record in hand" by the TYPE of the local (a SyncConnectOp handle) and by where its value
+# comes from (read out of pendingConnects), never by its name, (c) classify a returned ConnectResult by what it is built from.
+
+def _own_callee(fb, n):
+    """the single analysable definition, in the transport's own header, of a directly called function (None for virtual calls
+    into the engine, std:: functions, lambdas, overload sets)"""
+    if n is None or n.get("k") not in ("call", "mcall"):
+        return None
+    c = n.get("callee", "")
+    if not c.startswith(TR + "::"):     # Transport::… and Transport::Impl::…
+        return None
+    gs = [g for g in fb.by_name.get(c, []) if g.ok and g.file.endswith(FILE) and g.kind in ("method", "function")]
+    if len(gs) > 1:
+        na = len([a for a in n.get("args", []) if not a.get("def")])
+        gs = [g for g in gs if len(g.params) == na]
+    return gs[0] if len(gs) == 1 else None
+
+
+def _helper_calls(fb, f):
+    """[(call element in f, callee Function)]: f's direct calls to functions defined in the transport's own header"""
+    out = []
+    for e in f.stmts():
+        g = _own_callee(fb, e.node)
+        if g is not None and g is not f:
+            out.append((e, g))
+    return out
+
+
+def _is_waiter_handle(t):
+    """the type of a local that holds one waiter record: SyncConnectOp by shared_ptr, pointer or reference (NOT the map's iterator / value pair)"""
+    t = (t or "").replace("const ", "").replace(" const", "").strip(" &*")
+    return t in (SCO, "std::shared_ptr<%s>" % SCO)
+
+
+def _decls(f):
+    d = f.__dict__.get("_c04_decls")
+    if d is None:
+        d = {}
+        for e in f.stmts():
+            if e.node.get("k") == "decl":
+                for v in e.node["vars"]:
+                    d[v["d"]] = v
+        f.__dict__["_c04_decls"] = d
+    return d
+
+
+def _from_pending(f, n, depth=0):
+    """the value is read out of pendingConnects: it names the map, or an iterator / reference local initialised from it"""
+    for x in walk(n):
+        if x.get("k") == "member" and x.get("n") == IMPL + "::pendingConnects":
+            return True
+        if x.get("k") == "var" and depth < 3:
+            v = _decls(f).get(x.get("d"))
+            if v is not None and isinstance(v.get("init"), dict) and not _is_waiter_handle(v.get("t")) and _from_pending(f, v["init"], depth + 1):
+                return True
+    return False
+
+
+def _is_null(n):
+    n = strip_wrappers(n)
+    if n is None:
+        return True
+    if n.get("k") == "null":
+        return True
+    return n.get("k") == "ctor" and not [a for a in n.get("args", []) if not a.get("def")]
+
+
+def _waiter_abs(f, hit_helpers=None):
+    """Predicate abstraction of f with the single atom `op` = "the record of a waiter registered in pendingConnects is in hand".
+    The local that holds the record is found by its type; it makes the atom false where it is declared empty / set to null, true
+    where it receives a value read out of pendingConnects, unknown for any other value.  hit_helpers {callee name: polarity}: a
+    call to a helper that performs the lookup and reports it through its bool result leaves the atom unknown and the call's value
+    tests it.  Returns (PredAbs, [elements at which the record is taken out of the map])."""
+    hit_helpers = hit_helpers or {}
+    wv = {d: v for d, v in _decls(f).items() if _is_waiter_handle(v.get("t"))}
+    if len(wv) > 1:
+        raise AnalysisBroken("%s: %d locals hold a SyncConnectOp (%s): the rule follows one waiter record per function" % (short(f.name), len(wv), ", ".join(sorted(v["n"] for v in wv.values()))))
+    vocab = Vocab(["op"])
+
+    def is_w(x):
+        x = strip_wrappers(x)
+        return x is not None and x.get("k") == "var" and x.get("d") in wv
+
+    def leaf(n):
+        if is_w(n):
+            return A("op")
+        if n.get("k") in ("call", "mcall") and n.get("callee") in hit_helpers:
+            return A("op") if hit_helpers[n["callee"]] else Not(A("op"))
+        for (o, l, rr) in common.cmp_both(n):
+            if o in ("==", "!=") and is_w(l) and strip_wrappers(rr) is not None and strip_wrappers(rr).get("k") == "null":
+                return Not(A("op")) if o == "==" else A("op")
+        return None
+
+    def value(v):
+        if isinstance(v, dict) and not _is_null(v) and _from_pending(f, v):
+            return [("set", "op", True)]
+        if _is_null(v):
+            return [("set", "op", False)]
+        return [("havoc", "op")]
+    hits = []
+
+    def eff(e):
+        if e.kind != "stmt":
+            return None
+        n = e.node
+        k = n.get("k")
+        if k == "decl":
+            for v in n["vars"]:
+                if v["d"] in wv:
+                    return value(v.get("init"))
+        if k == "opcall" and n.get("op") == "=" and len(n.get("args", [])) == 2 and is_w(n["args"][0]):
+            return value(n["args"][1])
+        if k == "bin" and n.get("op") == "=" and is_w(n.get("lhs")):
+            return value(n.get("rhs"))
+        if k == "mcall" and last(n.get("callee", "")) == "reset" and is_w(n.get("obj")):
+            return value(n["args"][0]) if [a for a in n.get("args", []) if not a.get("def")] else [("set", "op", False)]
+        if k in ("call", "mcall") and n.get("callee") in hit_helpers:
+            return [("havoc", "op")]
+        return None
+    for e in f.stmts():
+        if eff(e) == [("set", "op", True)]:
+            hits.append(e)
+    return PredAbs(f, vocab, leaf, eff, track_bools=True), hits
+
+
+def _hit_polarity(g, pa):
+    """helper g performs the lookup: does its bool result tell a hit from a miss?  True: returns true exactly on a hit; False:
+    returns false exactly on a hit; AnalysisBroken when the result does not separate the two."""
+    pol = set()
+    for ret in common.returns(g):
+        v = strip_casts(ret.node.get("v")) if ret.node.get("v") else None
+        if not pa.reachable(ret):
+            continue
+        if v is None or v.get("k") != "bool":
+            raise AnalysisBroken("%s looks the session up in pendingConnects but does not report hit / miss as a constant bool at line %s: a hand-over shape this rule does not follow" % (short(g.name), ret.line))
+        hit = pa.entails(ret, A("op"))
+        miss = pa.entails(ret, Not(A("op")))
+        if hit == miss:
+            raise AnalysisBroken("%s: the return at line %s is reached both with and without a waiter record" % (short(g.name), ret.line))
+        pol.add((v["cv"] == 1) == hit)
+    if len(pol) != 1:
+        raise AnalysisBroken("%s: its bool result does not separate 'pending synchronous connect' from 'ordinary session'" % short(g.name))
+    return pol.pop()
+
+
+class _Site:
+    """where an engine callback hands a pending synchronous connect to its waiter: `body` is the function that holds the lookup (the
+    callback lambda itself, or the transport member function it calls), `pa`/`hit` its abstraction and the element that takes the
+    record out of the map; `lam_pa` is the abstraction of the lambda (the same object when body is the lambda)."""
+
+
+def _completion_site(ctx, lam):
+    fb = ctx.fb()
+    s = _Site()
+    s.lam = lam
+    pa, hits = _waiter_abs(lam)
+    if hits:
+        s.body, s.pa, s.hits, s.lam_pa, s.calls = lam, pa, hits, pa, []
+        return s
+    cands = {}
+    for (ce, g) in _helper_calls(fb, lam):
+        if g.sig not in cands:
+            pg, hg = _waiter_abs(g)
+            cands[g.sig] = (g, pg, hg, [])
+        cands[g.sig][3].append(ce)
+    cands = [c for c in cands.values() if c[2]]
+    if len(cands) > 1:
+        raise AnalysisBroken("%s calls %d helpers that take a record out of pendingConnects (%s)" % (short(lam.name), len(cands), ", ".join(short(c[0].name) for c in cands)))
+    if not cands:
+        # is the lookup really gone, or only somewhere this rule does not follow (a nested lambda, a second-level helper, no local)?
+        reach = ctx.cg().reach([lam], follow_lambdas=True)
+        for g in fb.functions:
+            if g.ok and (g is lam or g.sig in reach) and any(n.get("k") == "member" and n.get("n") == IMPL + "::pendingConnects" for n in g.nodes.values()):
+                raise AnalysisBroken("%s: pendingConnects is used in %s but no local receives the waiter record from it: a shape of the pending-connect branch this rule does not follow" % (short(lam.name), short(g.name)))
+        return None
+    g, pg, hg, calls = cands[0]
+    s.body, s.pa, s.hits, s.calls = g, pg, hg, calls
+    s.lam_pa, _ = _waiter_abs(lam, {g.name: _hit_polarity(g, pg)})
+    return s
+
+
+def _global_effects(fb, f, skip=(), depth=0):
+    """elements of f with an effect the application can observe — std::function invocations (global callback, observers), the
+    tombstone write, user-data and observer bookkeeping — and calls to transport helper functions that contain one"""
+    effs = [e for (e, t) in common.fn_invocations(f)]
+    effs += [e for (e, n, k) in common.field_writes(f, c03.SRB + "::closed")]
+    effs += common.member_calls_on(f, IMPL + "::sessionData", ("erase",))
+    effs += common.member_calls_on(f, IMPL + "::observers", ("erase", "find"))
+    if depth < 3:
+        for (ce, g) in _helper_calls(fb, f):
+            if g.sig not in skip and _global_effects(fb, g, skip, depth + 1):
+                effs.append(ce)
+    return effs
+
+
+def _deep_helpers(fb, f, depth=3):
+    """transport functions reachable from f through direct calls (f itself excluded)"""
+    out, todo = {}, [(f, 0)]
+    while todo:
+        g, d = todo.pop()
+        if d >= depth:
+            continue
+        for (ce, h) in _helper_calls(fb, g):
+            if h.sig not in out and h is not f:
+                out[h.sig] = h
+                todo.append((h, d + 1))
+    return list(out.values())
+
+
+def _result_kinds(fb, f, v, depth=0):
+    """what a ConnectResult-valued expression of f can be: 'err' (built by Result::err), 'ok' (built by Result::ok), 'result' (the
+    waiter record's stored result), 'engine' (what the engine's connect() returned), '?' (anything else: a parameter, an unknown call).  Looks through moves and copies, ?:, locals
+    (all their definitions) and calls to functions whose body is known (all their returns)."""
+    v = strip_wrappers(v)
+    while v is not None and v.get("k") == "ctor" and len([a for a in v.get("args", []) if not a.get("def")]) == 1 and "Result" in (v.get("cls") or ""):
+        v = strip_wrappers([a for a in v["args"] if not a.get("def")][0])
+    if v is None:
+        return {"?"}
+    k = v.get("k")
+    if k == "call" and last(v.get("callee", "")) in ("err", "ok") and "Result" in v.get("callee", ""):
+        return {last(v["callee"])}
+    if k == "member" and v.get("n") == SCO + "::result":
+        return {"result"}
+    if k == "mcall" and v.get("callee") == EB + "::connect":
+        return {"engine"}
+    if k == "cond":
+        return _result_kinds(fb, f, v.get("t"), depth) | _result_kinds(fb, f, v.get("f"), depth)
+    if k == "var" and depth < 4 and v.get("parm") is None:
+        out = set()
+        for e in f.stmts():
+            n = e.node
+            if n.get("k") == "decl":
+                for dv in n["vars"]:
+                    if dv["d"] == v.get("d"):
+                        out |= _result_kinds(fb, f, dv.get("init"), depth + 1) if isinstance(dv.get("init"), dict) else {"?"}
+            elif n.get("k") == "opcall" and n.get("op") == "=" and len(n.get("args", [])) == 2:
+                l = strip_wrappers(n["args"][0])
+                if l is not None and l.get("k") == "var" and l.get("d") == v.get("d"):
+                    out |= _result_kinds(fb, f, n["args"][1], depth + 1)
+        return out or {"?"}
+    if k in ("call", "mcall") and depth < 4:
+        gs = [g for g in fb.by_name.get(v.get("callee", ""), []) if g.ok]
+        if len({(g.file, g.line) for g in gs}) == 1 and not v.get("virt"):
+            out = set()
+            for ret in common.returns(gs[0]):
+                out |= _result_kinds(fb, gs[0], ret.node.get("v"), depth + 1)
+            return out or {"?"}
+    return {"?"}
+
+
+def _ret_kinds(ctx, f, ret):
+    return _result_kinds(ctx.fb(), f, ret.node.get("v"))
+
+
 def r1(ctx, r):
     f, la = _cs(ctx), c03._la(ctx)
     conns = [e for e in _engine_call(f, "connect") if la.mutexes(f, e)]   # the UDP shortcut runs before any lock
@@ -137,80 +403,96 @@ def r2(ctx, r):
                  okdesc="engine->connect only after !shuttingDown under syncMutex")
 
 
-def _cb_abs(ctx, lam):
-    """predicate abstraction of an engine callback lambda with the atom op != null"""
-    vocab = Vocab(["op"])
-
-    def leaf(n):
-        if n.get("k") == "mcall" and last(n.get("callee", "")).startswith("operator bool") and (n.get("obj") or {}).get("k") == "var" and n["obj"]["n"] == "op":
-            return A("op")
-        if n.get("k") == "var" and n["n"] == "op":
-            return A("op")
-        return None
-
-    def eff(e):
-        if e.kind != "stmt":
-            return None
-        n = e.node
-        if n.get("k") == "decl":
-            for v in n["vars"]:
-                if v["n"] == "op":
-                    return [("set", "op", False)]
-        if n.get("k") == "opcall" and n.get("op") == "=" and n["args"][0].get("k") == "var" and n["args"][0]["n"] == "op":
-            return [("set", "op", True)]    # op = it->second : the registered waiter (never null: stored from make_shared)
-        return None
-    return PredAbs(lam, vocab, leaf, eff)
-
-
 def r3(ctx, r):
-    la = c03._la(ctx)
+    fb, la = ctx.fb(), c03._la(ctx)
     lams = c03.lambdas(ctx)
     for which in ("onConnect", "onClose"):
         lam = lams[which]
-        pa = _cb_abs(ctx, lam)
-        assigns = [e for e in lam.stmts() if e.node.get("k") == "opcall" and e.node.get("op") == "=" and e.node["args"][0].get("k") == "var" and e.node["args"][0]["n"] == "op"]
+        site = _completion_site(ctx, lam)
         r.instance()
-        if len(assigns) != 1:
+        if site is None:
             r.fail(lam, None, "%s: no pending-connect branch" % which, "the %s engine callback no longer looks the session up in pendingConnects" % which)
             continue
-        hit = assigns[0]
+        if len(site.hits) != 1:
+            raise AnalysisBroken("%s: the waiter record is taken out of pendingConnects at %d places in %s" % (which, len(site.hits), short(site.body.name)))
+        # the lookup may live in the lambda or in a transport member function the lambda calls (site.body); everything about the
+        # completion is judged where the lookup is, everything about suppression in both
+        body, pa, hit = site.body, site.pa, site.hits[0]
+        where = "" if body is lam else " (in %s)" % short(body.name)
         # completion in the hit's critical section: result, done = true, erase
-        dones = [e for (e, n, k) in common.field_writes(lam, SCO + "::done")]
-        resw = common.field_writes(lam, SCO + "::result")
+        dones = [e for (e, n, k) in common.field_writes(body, SCO + "::done")]
+        resw = common.field_writes(body, SCO + "::result")
         ress = [e for (e, n, k) in resw]
-        resvals = [show(common.assigned_value(lam, n) or {}) for (e, n, k) in resw]
-        erases = common.member_calls_on(lam, IMPL + "::pendingConnects", ("erase",))
+        resvals = [_result_kinds(fb, body, common.assigned_value(body, n)) for (e, n, k) in resw]
+        erases = common.member_calls_on(body, IMPL + "::pendingConnects", ("erase",))
+        deep = _deep_helpers(fb, body)
+        finders = {"done = true": lambda g: common.field_writes(g, SCO + "::done"), "result": lambda g: common.field_writes(g, SCO + "::result"),
+                   "pendingConnects.erase": lambda g: common.member_calls_on(g, IMPL + "::pendingConnects", ("erase",))}
         for lab, lst in (("done = true", dones), ("result", ress), ("pendingConnects.erase", erases)):
             r.instance()
             ok = False
             for e in lst:
-                s, w = common.same_section(lam, la, hit, e, SYNC)
-                if s and elem_dominates(lam, hit, e):
+                s, w = common.same_section(body, la, hit, e, SYNC)
+                if s and elem_dominates(body, hit, e):
                     ok = True
-            r.expect(ok, lam, hit, "%s: %s missing" % (which, lab), "on a pending synchronous connect the %s callback does not set %s in the critical section that found the waiter" % (which, lab),
+            if not ok:
+                # the step may have moved one level further down (a helper called from where the lookup is): the critical-section
+                # argument is not made across that call, so this is a refusal, not a finding
+                moved = [g for g in deep if finders[lab](g)]
+                if moved:
+                    raise AnalysisBroken("%s: `%s` is done in %s, called from %s: the rule judges the completion only in the function that holds the lookup" % (which, lab, short(moved[0].name), short(body.name)))
+            r.expect(ok, body, hit, "%s: %s missing" % (which, lab), "on a pending synchronous connect the %s callback%s does not set %s in the critical section that found the waiter" % (which, where, lab),
                      okdesc="%s: %s in the hit's critical section" % (which, lab))
         if which == "onConnect":
             r.instance()
-            r.expect(any("Result::ok" in v for v in resvals), lam, hit, "onConnect result", "onConnect does not complete the waiter with ok(sid)", okdesc="onConnect: result = ok(sid)")
+            r.expect(any(v == {"ok"} for v in resvals), body, hit, "onConnect result", "onConnect does not complete the waiter with ok(sid)", okdesc="onConnect: result = ok(sid)")
         else:
             r.instance()
-            r.expect(any("Result::err" in v for v in resvals), lam, hit, "onClose result", "onClose does not complete the waiter with err(reason)", okdesc="onClose: result = err(reason)")
+            r.expect(any(v == {"err"} for v in resvals), body, hit, "onClose result", "onClose does not complete the waiter with err(reason)", okdesc="onClose: result = err(reason)")
         # waiter is notified
-        nots = [e for e in lam.stmts() if e.node.get("k") == "mcall" and last(e.node["callee"]) in ("notify_one", "notify_all") and field_of(e.node.get("obj")) == SCO + "::cv"]
+        fns = [(body, pa)] + ([(lam, site.lam_pa)] if body is not lam else [])
+        nots = [(g, e) for (g, gp) in fns for e in g.stmts() if e.node.get("k") == "mcall" and last(e.node["callee"]) in ("notify_one", "notify_all") and field_of(e.node.get("obj")) == SCO + "::cv"]
+        pas = {g.sig: gp for (g, gp) in fns}
         r.instance()
-        r.expect(bool(nots) and all(pa.entails(e, A("op")) for e in nots), lam, hit, "%s: waiter not notified" % which, "the parked connectSync is not notified", okdesc="%s: op->cv.notify" % which)
+        if not nots and [g for g in deep if any(e.node.get("k") == "mcall" and last(e.node["callee"]) in ("notify_one", "notify_all") and field_of(e.node.get("obj")) == SCO + "::cv" for e in g.stmts())]:
+            raise AnalysisBroken("%s: the waiter is notified in a helper called from %s, which the rule does not follow" % (which, short(body.name)))
+        r.expect(bool(nots) and all(pas[g.sig].entails(e, A("op")) for (g, e) in nots), body, hit, "%s: waiter not notified" % which, "the parked connectSync is not notified", okdesc="%s: op->cv.notify" % which)
         # suppression: nothing user-visible on the hit path
-        effects = [e for (e, t) in common.fn_invocations(lam)]
-        effects += [e for (e, n, k) in common.field_writes(lam, c03.SRB + "::closed")]
-        effects += common.member_calls_on(lam, IMPL + "::sessionData", ("erase",))
-        effects += common.member_calls_on(lam, IMPL + "::observers", ("erase", "find"))
-        if not effects:
+        n_eff = 0
+        for (g, gp) in fns:
+            for e in _global_effects(fb, g, skip=(body.sig,)):
+                n_eff += 1
+                r.instance()
+                r.expect(gp.entails(e, Not(A("op"))), g, e, "%s: global effect on pending connect" % which,
+                         "`%s` is reachable on the path where the session belongs to a parked connectSync: the application would see a callback for an id it was never given" % show(e.node)[:70],
+                         okdesc="%s: %s only when no pending connect" % (which, show(e.node)[:40]))
+        if not n_eff:
             raise AnalysisBroken("%s lambda has no user-visible effects to check" % which)
-        for e in effects:
-            r.instance()
-            r.expect(pa.entails(e, Not(A("op"))), lam, e, "%s: global effect on pending connect" % which,
-                     "`%s` is reachable on the path where the session belongs to a parked connectSync: the application would see a callback for an id it was never given" % show(e.node)[:70],
-                     okdesc="%s: %s only when no pending connect" % (which, show(e.node)[:40]))
+
+
+def _fn_sources(f, n, depth=0):
+    """the fields a std::function value comes from: the member named, or — for a local — the members its definitions copy ('?' for anything else)"""
+    n = strip_wrappers(n)
+    if n is None:
+        return {"?"}
+    if n.get("k") == "member":
+        return {n["n"]}
+    if n.get("k") == "var" and n.get("parm") is None and depth < 3:
+        out = set()
+        for e in f.stmts():
+            m = e.node
+            if m.get("k") == "decl":
+                for v in m["vars"]:
+                    if v["d"] == n.get("d") and isinstance(v.get("init"), dict) and not _is_null(v["init"]):
+                        out |= _fn_sources(f, v["init"], depth + 1)
+            elif m.get("k") == "opcall" and m.get("op") == "=" and len(m.get("args", [])) == 2:
+                l = strip_wrappers(m["args"][0])
+                if l is not None and l.get("k") == "var" and l.get("d") == n.get("d"):
+                    out |= _fn_sources(f, m["args"][1], depth + 1)
+        return out or {"?"}
+    if n.get("k") == "ctor" and len([a for a in n.get("args", []) if not a.get("def")]) == 1:
+        return _fn_sources(f, [a for a in n["args"] if not a.get("def")][0], depth)
+    return {"?"}
 
 
 def r4(ctx, r):
@@ -231,13 +513,35 @@ def r4(ctx, r):
                     bad.append((g, e, "socket call %s" % n["callee"]))
                 if n.get("k") == "opcall" and n.get("op") == "()" and n.get("callee") == "std::function::operator()":
                     tgt = show(n["args"][0])
-                    # the error callback on the enqueue exception path is the documented exception
-                    if "onError" in tgt or tgt == "cb" and "enqueue" in g.name:
+                    # which registered callback is it?  The invoked object is a member, or a local copy of one (copy-then-invoke): follow
+                    # the local's definitions to the fields they read.  The one documented exception is the ERROR callback on an
+                    # exception path (enqueue's catch handler: the command could not even be queued)
+                    src = _fn_sources(g, n["args"][0])
+                    if src and all(x.endswith("::onError") for x in src) and e.catch_id:
                         continue
-                    bad.append((g, e, "callback %s" % tgt))
+                    bad.append((g, e, "callback %s%s" % (tgt, " (a copy of %s)" % ", ".join(sorted(short(x) for x in src)) if src and src != {tgt} and "?" not in src else "")))
         r.expect(not bad, bad[0][0] if bad else f, bad[0][1] if bad else None, "%s::connect does more than enqueue" % last(cls),
                  "%s::connect() reaches %s: it must only enqueue a command (connectSync registers its waiter after connect() returns)" % (last(cls), bad[0][2] if bad else ""),
                  okdesc="%s::connect reaches no socket call and no session callback (%d functions)" % (last(cls), len(reach)))
+
+
+def _enqueues(fb, g, cls, depth=0):
+    """elements of g that certainly queue a command: calls of enqueue, and calls of a method of the same engine class every path of
+    which queues one (a close() that delegates to a helper still always queues)"""
+    out = []
+    for e in g.stmts():
+        n = e.node
+        if n.get("k") != "mcall":
+            continue
+        if last(n.get("callee", "")) == "enqueue":
+            out.append(e)
+        elif depth < 2 and n.get("callee", "").startswith(cls + "::") and not n.get("virt"):
+            hs = [h for h in fb.by_name.get(n["callee"], []) if h.ok and h is not g and h.kind == "method"]
+            if len(hs) == 1:
+                he = _enqueues(fb, hs[0], cls, depth + 1)
+                if he and search(hs[0], ("entry",), "exit", stop=lambda x, he=he: x in he, eh=False) is None:
+                    out.append(e)
+    return out
 
 
 def r4b(ctx, r):
@@ -250,7 +554,7 @@ def r4b(ctx, r):
         if len(fs) != 1:
             raise AnalysisBroken("%s::close(sid): %d definitions" % (last(cls), len(fs)))
         g = fs[0]
-        enq = [e for e in g.stmts() if e.node.get("k") == "mcall" and last(e.node.get("callee", "")) == "enqueue"]
+        enq = _enqueues(fb, g, cls)
         r.instance()
         w = search(g, ("entry",), "exit", stop=lambda x: x in enq, eh=False)
         r.expect(bool(enq) and w is None, g, None, "%s::close may not queue" % last(cls), "%s::close(sid) can return without queueing a Close command (%s): a close issued for an id whose Connect command has not been "
@@ -279,7 +583,8 @@ def r5(ctx, r):
             return [("havoc", "done")]
         return None
     pa = PredAbs(f, vocab, leaf, eff, init=Not(A("closed_issued")), track_bools=True)
-    oks = [e for e in common.returns(f) if elem_dominates(f, wait, e) and ("op->result" in show(e.node) or "Result::ok" in show(e.node))]
+    # success returns: what the returned value is built from (the record's stored result, or Result::ok), looked through locals and helpers
+    oks = [e for e in common.returns(f) if elem_dominates(f, wait, e) and _ret_kinds(ctx, f, e) & {"ok", "result"}]
     r.instance()
     r.expect(len(oks) >= 1, f, None, "no success return", "connectSync never returns the completed result", okdesc="success return present")
     for e in oks:
@@ -300,11 +605,6 @@ def r5(ctx, r):
         r.expect(bool(unlocks) and all(pa.entails(u, Not(A("done"))) for u in unlocks), f, c, "close of a completed connect",
                  "the timeout path releases the lock to close the session although the connect was seen completed (op->done) in that critical section",
                  okdesc="timeout close only when !op->done was seen before releasing the lock")
-    # every return after the close is an error result
-    for e in common.returns(f):
-        if closes and search(f, closes[0], lambda x, e=e: x is e, eh=False) is not None:
-            r.instance()
-            r.expect("Result::err" in show(e.node), f, e, "non-error after close", "a return reachable after engine->close() is not an error result", okdesc="return after close is err(...)")
     # ParkGuard destructor runs under the lock on every path
     for e in f.elems():
         if e.kind == "dtor" and e.raw.get("t", "").endswith("ParkGuard"):
@@ -319,6 +619,23 @@ def r5(ctx, r):
                 r.expect(w is None, f, c, "engine call after the count was released", "connectSync calls engine->close() after its ParkGuard has already been destroyed (%s): between the unlock and the return of that call "
                          "the caller is inside the engine but not counted in activeConnects, so a teardown from another thread can finish and free the engine under it (use-after-free)" % witness_str(f, w),
                          okdesc="engine->close() while still counted")
+
+
+def r5b(ctx, r):
+    """'…never reports success afterwards': every value connectSync can return once it has issued its timeout-path engine->close() is an
+    error result.  The value is classified by what builds it (_result_kinds), through locals and through the bodies of the functions
+    it comes from, so `return shuttingDownResult()` is an error and `return finalResult(op)` is whatever that helper can return."""
+    f = _cs(ctx)
+    closes = _engine_call(f, "close")
+    what = {"ok": "Result::ok(...)", "result": "the waiter record's stored result (ok(sid) after a late completion)", "engine": "the engine's connect() result (ok(sid))", "err": "Result::err(...)"}
+    for e in common.returns(f):
+        if closes and any(search(f, c, lambda x, e=e: x is e, eh=False) is not None for c in closes):
+            r.instance()
+            kinds = _ret_kinds(ctx, f, e)
+            if "?" in kinds and not kinds & {"ok", "result", "engine"}:
+                raise AnalysisBroken("connectSync: the value returned at line %s after engine->close() cannot be traced to what builds it" % e.line)
+            r.expect(kinds == {"err"}, f, e, "non-error after close", "a return reachable after engine->close() is not an error result: it can be %s — the caller would get a live-looking id for a "
+                     "session the transport has just closed" % " / ".join(what[k] for k in sorted(kinds) if k in what and k != "err"), okdesc="return after close is err(...)")
 
 
 def r7(ctx, r):
@@ -353,6 +670,20 @@ def _unctor(n):
     while n is not None and n.get("k") == "ctor" and len([a for a in n["args"] if not a.get("def")]) == 1:
         n = strip_wrappers(n["args"][0])
     return n
+
+
+def _const_duration(f, n, depth=0):
+    """the compile-time constant a duration expression stands for: a literal, a duration constructed from one, or a const local so initialised"""
+    n = _unctor(n)
+    if n is None:
+        return None
+    if n.get("k") in ("int", "float") and "cv" in n:
+        return n["cv"]
+    if n.get("k") == "var" and depth < 3 and n.get("parm") is None and "const" in (n.get("t") or ""):
+        v = _decls(f).get(n.get("d"))
+        if v is not None and isinstance(v.get("init"), dict):
+            return _const_duration(f, v["init"], depth + 1)
+    return None
 
 
 def r8(ctx, r):
@@ -394,7 +725,10 @@ def r8(ctx, r):
                     lhs = n["lhs"] if n["k"] == "bin" else n["args"][0]
                     if lhs.get("k") == "var" and lhs["n"] == t["n"]:
                         defs.append(_unctor(n["rhs"] if n["k"] == "bin" else n["args"][1]))
-            ok = bool(defs) and all(d.get("k") == "call" and d.get("callee") == "std::min" and "subInterval" in show(d) and "remaining" in show(d) for d in defs)
+            # min(<what is left of the caller's timeout>, <a constant polling interval>): the constant operand is what bounds the time to
+            # the next token test; it is recognised by its value (a literal, or a const local initialised from one), not by its name
+            ok = bool(defs) and all(d is not None and d.get("k") == "call" and d.get("callee") == "std::min" and len(d.get("args", [])) >= 2 and
+                                    sum(1 for a in d["args"][:2] if _const_duration(f, a) is not None) == 1 for d in defs)
         else:
             ok = False
         r.expect(ok, f, c, "unbounded sub-wait", "the timeout handed to connectSync is not min(remaining, subInterval): cancellation is not observed within the polling interval",
@@ -451,7 +785,9 @@ def r10(ctx, r):
     tclose = closes[0]
     # the protocol this rule knows: connectSync itself does not erase the entry on the timeout path
     own_erases = [e for e in common.member_calls_on(f, IMPL + "::pendingConnects", ("erase",)) if search(f, e, lambda x: x is tclose, eh=False) is not None or search(f, tclose, lambda x, e=e: x is e, eh=False) is not None]
-    lam = lams["onConnect"]
+    # the function that holds onConnect's pending-connect branch: the lambda, or the transport helper it calls (see _completion_site)
+    site = _completion_site(ctx, lams["onConnect"])
+    lam = site.body if site is not None else lams["onConnect"]
     erases = common.member_calls_on(lam, IMPL + "::pendingConnects", ("erase",))
     if not erases:
         raise AnalysisBroken("onConnect: pendingConnects.erase not found")
@@ -501,7 +837,7 @@ def r10(ctx, r):
         raise AnalysisBroken("connectSync: registration in pendingConnects not found")
     if marks:
         for ret in common.returns(f):
-            if not elem_dominates(f, reg[0], ret) or "op->result" in show(ret.node):
+            if not elem_dominates(f, reg[0], ret) or "result" in _ret_kinds(ctx, f, ret):
                 continue
             r.instance()
             marked = any(elem_dominates(f, e, ret) and SYNC in la.mutexes(f, e) for name in marks for (e, n, k) in common.field_writes(f, name))
@@ -517,6 +853,7 @@ def run(ctx, ck):
     ck.run_rule("C04-R4", "engine connect() only enqueues", "A3 reachability", lambda r: r4(ctx, r))
     ck.run_rule("C04-R4b", "engine close(sid) always queues a command (a close before the connect is dispatched is not lost)", "A2 must-pass", lambda r: r4b(ctx, r))
     ck.run_rule("C04-R5", "success only on done and before close; timeout path closes outside the lock and never succeeds", "A5 ghost atom + A1", lambda r: r5(ctx, r))
+    ck.run_rule("C04-R5b", "every value returned after the timeout-path close is an error result (traced through locals and helpers)", "dataflow over return values + A3", lambda r: r5b(ctx, r))
     ck.run_rule("C04-R7", "I/O-thread guard precedes the first lock in the synchronous operations", "A2 dominance", lambda r: r7(ctx, r))
     ck.run_rule("C04-R8", "cancellable connect tests the token before every attempt and bounds each sub-wait", "A5 + dataflow", lambda r: r8(ctx, r))
     ck.run_rule("C04-R10", "the entry of a timed-out waiter survives until the close it caused is reported", "protocol rule: mark under lock on the timeout path, tested before the other eraser", lambda r: r10(ctx, r))
